@@ -312,8 +312,63 @@ def case_subset(ctx, res, p):
                           detail={"model": ms, "impl": ["ok", bitmap(est, B), fe + pe + pre]})
 
 
+def case_helper(ctx, res, p):
+    """Intermediates obtained from the documented helper functions (not copied from a fitted model), on data that may
+    contain duplicate cells: a fresh estimator given them must reproduce the one-shot fit exactly."""
+    m = mellon()
+    import jax.numpy as jnp
+    from mellon import parameters as P
+    rng = np.random.default_rng(int(p["dseed"]))
+    n = 16
+    X = rng.normal(size=(n, 2))
+    for _ in range(int(p["dups"])):
+        i, j = rng.integers(n, size=2)
+        X[i] = X[j]
+    est = p["est"]
+    kw = dict(n_landmarks=0, optimizer="adam", n_iter=3)
+    if est == "T":
+        X = np.c_[X, np.repeat([0.0, 1.0], n // 2)]
+        kw["ls_time"] = 1.0
+    Xj = jnp.asarray(X)
+    which = list(p["which"])
+    res.case(("helper", est, p["dseed"], p["dups"], tuple(which)), True,
+             {"op": "helper", "est": est, "dups": p["dups"], "which": which})
+    res.count("helper:est=" + est)
+    res.count("helper:dups=%d" % min(int(p["dups"]), 3))
+    exc = None
+    with warnings.catch_warnings():
+        warnings.simplefilter("ignore")
+        try:
+            A = make(est, kw)
+            A.fit(Xj)
+        except Exception as ex:  # noqa
+            res.notes.append(f"one-shot fit on duplicate data refused: {type(ex).__name__}")
+            return
+        try:
+            seeds = {}
+            if "nn_distances" in which:
+                seeds["nn_distances"] = (P.compute_nn_distances_within_time_points(Xj) if est == "T"
+                                         else P.compute_nn_distances(Xj))
+            if "ls" in which:
+                seeds["ls"] = float(A.ls)
+            if "mu" in which:
+                seeds["mu"] = float(A.mu)
+            B = make(est, dict(kw, **seeds))
+            B.fit(Xj)
+        except Exception as ex:  # noqa
+            exc = ex
+    if exc is not None:
+        res.oracle_fail(f"a fresh estimator given intermediates from the helper functions fails ({type(exc).__name__})", p,
+                        detail={"error": str(exc)[:200]}, signature=f"C18:helper-fails:{est}")
+        return
+    fa, fb = np.asarray(fitted_of(est, A), float), np.asarray(fitted_of(est, B), float)
+    if fa.tobytes() != fb.tobytes():
+        res.oracle_fail("intermediates from the helper functions do not reproduce the one-shot results exactly", p,
+                        detail={"max_abs_dev": float(np.max(np.abs(fa - fb)))}, signature=f"C18:helper-differs:{est}")
+
+
 def run_case(ctx, res, p):
-    return {"history": case_history, "subset": case_subset}[p["op"]](ctx, res, p)
+    return {"history": case_history, "subset": case_subset, "helper": case_helper}[p["op"]](ctx, res, p)
 
 
 def model_legal(ctx, cname, ops):
@@ -360,6 +415,13 @@ def transitions(ctx, cname, alphabet, depth):
     return len(seen), words
 
 
+def run_helpers(ctx, res, rng, count):
+    for _ in range(count):
+        run_case(ctx, res, {"op": "helper", "est": ["D", "D", "T"][int(rng.integers(3))],
+                            "dseed": int(rng.integers(1 << 30)), "dups": int(rng.choice([0, 1, 3, 6])),
+                            "which": [["nn_distances"], ["nn_distances", "ls"], ["nn_distances", "mu"]][int(rng.integers(3))]})
+
+
 def run(ctx, res):
     rng = ctx["rng"]
     quick = ctx["tier"] == "quick"
@@ -370,6 +432,8 @@ def run(ctx, res):
     dconfigs = ["D-full", "D-sparse", "D-sparse-nystroem", "D-full-nystroem", "D-full-adam"]
     others = ["T-full", "T-sparse", "M-full"]
     all_subsets = [[a for j, a in enumerate(CACHEABLES) if (mask >> j) & 1] for mask in range(2 ** 9)]
+    # intermediates from the documented helper functions, incl. data with duplicate cells
+    run_helpers(ctx, res, rng, 6 if quick else 40)
 
     def histories(cname, words, key, reserve):
         done = 0
